@@ -43,7 +43,7 @@ theorem accessors_need_cache (s : S) : accessorOk s = true ↔ s.cache = true :=
 
 /-- a cache only ever appears through a solve that ended OPTIMAL -/
 theorem cache_only_after_optimal (s : S) (op : Op) (h0 : s.cache = false) (h1 : (step s op).cache = true) :
-    (∃ f, op = .optPrimal lpOptimal f) ∨ (∃ f, op = .optDual lpOptimal f) ∨ (∃ f, op = .exactSolver lpOptimal f) := by
+    (∃ f, op = .optPrimal lpOptimal f) ∨ (∃ f, op = .optDual lpOptimal f) ∨ (∃ f b k, op = .exactSolver lpOptimal f b k) := by
   cases op <;> simp only [step, freeCache, edited, optWork] at h1 <;> (repeat' split at h1) <;> simp_all
 
 end Qsx.Props.C05
